@@ -121,6 +121,8 @@ theorem merge_spec (m b m' : Mol) (o : Off) (hinv : Inv m o) (h : m.merge b = (m
   rw [merge_eq] at h
   split at h
   · cases h
+  split at h
+  · cases h
   · rw [offsOf_inv m o hinv] at h
     simp only [mergeCore] at h
     split at h
@@ -151,7 +153,8 @@ theorem merge_spec (m b m' : Mol) (o : Off) (hinv : Inv m o) (h : m.merge b = (m
           intro e he
           obtain ⟨e0, _, h1, h2, _⟩ := hmem e he
           exact ⟨hin _ ⟨_, h1⟩, hin _ ⟨_, h2⟩⟩)
-      simp only [Prod.mk.injEq, and_true] at h
+      simp only [Prod.mk.injEq] at h
+      replace h := h.1
       unfold shiftNodes at hfold
       rw [hnodes] at h
       obtain ⟨f1, f2, f3, f4, f5, f6⟩ := hfold
